@@ -107,6 +107,20 @@ def rich_ops(rnd, paths):
     return ops
 
 
+def design_sized(req, roots, bound=11):
+    """The worklist machine of MVS.tla visits the reachable versions in every order: its state
+    space grows with the subsets of what the roots reach, so the design check takes universes
+    whose roots reach at most `bound` versions (every universe still goes to the real resolver)."""
+    seen, todo = set(), [r for r in roots]
+    while todo:
+        x = todo.pop()
+        if x in seen:
+            continue
+        seen.add(x)
+        todo.extend(req.get(x, []))
+    return len(seen) <= bound
+
+
 def tla_universe(req, roots):
     nodes = sorted(req)
     body = " [] ".join('x = "%s" -> <<%s>>' % (n, ", ".join('"%s"' % r for r in req[n])) for n in nodes)
@@ -160,7 +174,7 @@ def pipeline(tier):
             pool = sorted(paths) + ["u"]
             c["names"] = [rnd.choice(pool) + ("" if k == 0 else "-%d" % k) for k in range(len(roots))]
         cases.append(c)
-        if i < (60 if quick else 180):
+        if i < (60 if quick else 180) and design_sized(req, roots):
             design.append(tla_universe(req, roots))
     for i in range(250 if quick else 4000):
         req, paths = rich_universe(rnd)
@@ -171,7 +185,7 @@ def pipeline(tier):
         if i % 2:
             c["host"] = "github"      # one repository of a well-known hosting service holding all projects
         cases.append(c)
-        if i < (40 if quick else 120):
+        if i < (40 if quick else 120) and design_sized(req, roots):
             design.append(tla_universe(req, roots))
     # the history of the documentation of 'get': a branch ahead of the last tag, then @patch
     req = {"p/120": [], "p/125": [], "q/100": ["p/120"]}
